@@ -27,7 +27,7 @@ theorem convert_mkLine_gen (o : Opts) (a e m s fl : Str) (l c : Int) :
     id `<addon>-<errorId>`, the location, severity and message the addon gave -/
 theorem convert_mkLine (o : Opts) (a e m s fl : Str) (l c : Int) (h : reportable o s = true) :
     convert o (mkLine a e m s fl l c) = .report ⟨a ++ ['-'] ++ e, sevOfStr s, m, [⟨fl, l, c, []⟩], none, none⟩ := by
-  simp only [reportable, Bool.and_eq_true, bne_iff_ne, ne_eq] at h
+  simp only [reportable, Bool.and_eq_true, ne_eq] at h
   obtain ⟨⟨h1, h2⟩, h3⟩ := h
   have h1' : sevOfStr s ≠ .none := by simpa using h1
   have h2' : sevOfStr s ≠ .internal := by simpa using h2
@@ -45,7 +45,7 @@ theorem convert_mkLine_filtered (o : Opts) (a e m s fl : Str) (l c : Int)
     by_cases hn : sevOfStr s = .none ∨ sevOfStr s = .internal
     · simp only [if_pos hn, hlc', Bool.false_eq_true, if_false]
     · have hen : o.enabled (sevOfStr s) = false := by
-        simp only [reportable, Bool.and_eq_false_iff, bne_eq_false_iff_eq] at h
+        simp only [reportable, Bool.and_eq_false_iff] at h
         rcases h with (h | h) | h
         · exact absurd (Or.inl (by simpa using h)) hn
         · exact absurd (Or.inr (by simpa using h)) hn
